@@ -54,11 +54,28 @@ pub fn convert_node(ast: &ASTTy, imp: &mut Imports, state: &State, ctx: &Context
         NodeTy::VariableDef { .. } | NodeTy::FunDef { .. } | NodeTy::FunArg { .. } => {
             convert_def(ast, imp, state, ctx)?
         }
-        NodeTy::Reassign { left, right, op } => Core::Assign {
-            left: Box::from(convert_node(left, imp, state, ctx)?),
-            right: Box::from(convert_node(right, imp, state, ctx)?),
-            op: CoreOp::try_from((ast, op))?,
-        },
+        NodeTy::Reassign { left, right, op } => {
+            let left = convert_node(left, imp, state, ctx)?;
+            let right = convert_node(right, imp, state, ctx)?;
+            let op = CoreOp::try_from((ast, op))?;
+            let statement = matches!(
+                right,
+                Core::IfElse { .. } | Core::If { .. } | Core::Match { .. } | Core::TryExcept { .. }
+            );
+            match (statement, &op) {
+                // the new value is a statement: the assignment goes into its branches
+                (true, CoreOp::Assign) => append_assign(&right, &left, &None, imp),
+                (true, _) => {
+                    let msg = "compound assignment of a block";
+                    return Err(Box::from(UnimplementedErr::new(ast, msg)));
+                }
+                (false, _) => Core::Assign {
+                    left: Box::from(left),
+                    right: Box::from(right),
+                    op,
+                },
+            }
+        }
 
         NodeTy::Block { statements } => Core::Block {
             statements: convert_vec(statements, imp, state, ctx)?,
